@@ -208,6 +208,8 @@ class Zone:
     def entails(self, op, a, b):
         if getattr(self, "infeasible", False):
             return True
+        if op in ("Le", "Lt") and self._sum_rewrite(op, a, b):
+            return True
         xa, oa = lin(a)
         xb, ob = lin(b)
         if op == "Le":
@@ -228,6 +230,22 @@ class Zone:
 
     def feasible(self):
         return not self.infeasible
+
+    def _sum_rewrite(self, op, a, b):
+        """p + q (op) b  <=>  q (op) b - p  when the exact difference b - p is a term of the path (three-variable facts
+        that a difference-bound matrix cannot hold directly)"""
+        if not (isinstance(a, tuple) and a[0] == "binop" and a[1] == "Add" and not is_const(a[3])):
+            return False
+        p, q = a[2], a[3]
+        for x, y in ((p, q), (q, p)):
+            d = ("binop", "Sub", b, x)
+            if d in self.all_terms and self.entails_raw_le(x, b):
+                xa, oa = lin(y)
+                xb, ob = lin(d)
+                w = self.diff_ub(xa, xb)
+                if w is not None and w <= ob - oa - (1 if op == "Lt" else 0):
+                    return True
+        return False
 
 
 def entails(cons, op, a, b, extra_rels=()):
@@ -327,3 +345,12 @@ def ax_parsed_int(z, x):
         u = z.ub(xa) if xa is not None else 0
         if u is not None and 0 <= u + oa <= 19:
             return [("Le", x, const(10 ** (u + oa) - 1))]
+
+
+@axiom
+def ax_reserved_cap(z, x):
+    """capacity after reserve(n) is at least len + n"""
+    if x[0] == "cap" and isinstance(x[1], tuple) and x[1][0] == "reserved":
+        from .models import len_term
+        old, n = x[1][1], x[1][2]
+        return [("Le", n, x), ("Le", len_term(old), x),("Le", mk_binop("Add", len_term(old), n) if not is_const(len_term(old)) or not is_const(n) else const(len_term(old)[1] + n[1]), x)]
